@@ -569,7 +569,7 @@ func monC07(c *drv.Ctx) {
 	// references after the load: they must survive collections and heap reuse (an item table the collector does
 	// (2d) one instance reloaded more often than any 16-bit counter holds (a configuration map refreshed for months):
 	// the content after the last load is what that load gave it
-	c.Stage("many-reloads", 2, true, func(cs *drv.Case) {
+	c.Stage("many-reloads", 3, true, func(cs *drv.Case) {
 		r := cs.R
 		k1 := genKeys(r, 60)
 		w1 := map[string]int{}
@@ -586,9 +586,12 @@ func monC07(c *drv.Ctx) {
 			cs.Fail("strmap-load-error", nil, M{"phase": "first load"})
 			return
 		}
-		n := 65536 + 10
+		// the last load is exactly 2^16 (2^17) loads after the first: a per-load counter of 16 bits is back where it was
+		n := 65536 + 1
 		if cs.Idx == 1 {
-			n = 2*65536 + 3
+			n = 2*65536 + 1
+		} else if cs.Idx == 2 {
+			n = 65536 + 10 // ... and a count that is not a multiple
 		}
 		one := []string{"k"}
 		for i := 0; i < n-2; i++ {
